@@ -20,6 +20,7 @@ FLAVOURS = {
     'C14': ['control', 'control', 'lock', 'control', 'schedule'],
     'C16': ['stop', 'stop', 'stop', 'schedule', 'control'],
     'C15': ['rules', 'rules', 'control', 'rules', 'control'],
+    'C04': ['plain', 'plain', 'schedule', 'plain', 'plain'],
 }
 # which first-differing-field codes concern which property (see coq/SolverCorr.v, row_code / case_code)
 CODES = {
@@ -32,6 +33,7 @@ CODES = {
     'C14': {8},
     'C16': {11},
     'C15': {8},
+    'C04': {2, 3, 4, 22, 23, 24, 5, 6, 7},
 }
 ERR_KEYWORDS = {
     'C01': ['angular_position', 'angular_speed', 'angular_acceleration', 'transmit'],
@@ -43,6 +45,7 @@ ERR_KEYWORDS = {
     'C14': ['pwm', 'apply_rules', 'rule'],
     'C16': ['check_condition', 'stop', 'operator', 'sensor', 'get_value'],
     'C15': ['apply', 'rule', 'timer', 'is_active', 'static_error', 'pwm_min', 'get_value'],
+    'C04': ['torque', 'angular', 'time_integration', 'inertia'],
 }
 RULE = {
     'C01': 'non-trivial = >= 3 elements, >= 2 recorded instants, some ratio != 1, non-zero motion',
@@ -54,6 +57,7 @@ RULE = {
     'C14': 'non-trivial = >= 1 rule applicable at some instant (recorded duty cycle != 1) or a two-rule conflict',
     'C16': 'non-trivial = run that stopped before the full duration',
     'C15': 'non-trivial = controlled run in which a rule is applicable at >= 1 instant and not applicable at >= 1 instant',
+    'C04': 'correspondence: non-trivial = >= 2 recorded instants with non-zero acceleration; search: linear scenarios (constant duty cycle and load, never held) run at dt, dt/2, dt/4 with kap*dt <= 0.2 against the closed form',
 }
 
 
@@ -70,7 +74,7 @@ def is_nontrivial(pid, sc, res):
         return n >= 3 and moving and any(r != 1 for r in ratios)
     if pid == 'C02':
         return n >= 3 and moving and any(r['ltq'][-1][0] != 0 for r in rows)
-    if pid == 'C03':
+    if pid in ('C03', 'C04'):
         return any(r['acc'][-1][0] != 0 for r in rows)
     if pid == 'C11':
         dts = [op[1][1] for op in sc['ops'] if op[0] == 'run']
@@ -258,6 +262,9 @@ def long_grid_scenarios(rng, n):
 
 def search(pid, tier, seed, escalate, hints):
     """property statement evaluated on the implementation's histories"""
+    if pid == 'C04':
+        import oracle_c04
+        return oracle_c04.search(tier, seed, escalate)
     rng = random.Random(seed * 77 + 1)
     out = []
     n_checked = 0
@@ -291,6 +298,9 @@ def search(pid, tier, seed, escalate, hints):
             out += O.c12_check(sc, rng)
         if len([w for w in out if w['cls'] not in ('D4',)]) >= 5:
             break
+    if pid == 'C04':
+        import oracle_c04
+        return oracle_c04.search(tier, seed, escalate)
     if pid == 'C13':
         import fam_rel
         ws, k = fam_rel.search('C20', tier, seed, escalate, [])
